@@ -6,6 +6,7 @@ from . import c01, c02
 
 def run(chk):
     thorough = chk.tier == 'thorough'
+    chk.bounds['families added after seeded changes'] = 'plain entry points with a distinct user-given name per quantifier occurrence at every k; sibling-quantifier and swapped two-variable-duplicate families'
     chk.bounds.update({'E-UNI': 'instances U2, C2, M2; k in {depth, depth+1, depth+2}: sanitised BDD (canonical context) == raw BDD == semantics; sanitised BDDs identical across k; usable with SymbolicAsyncGraph::new(network)',
                        'E-MIR': 'sanitize_colored_vertices executed from MIR behind the string entry points (transfer_from by contract: Some(same function) iff independent of all auxiliary variables), n=2, k = depth .. depth+1'})
     chk.assumptions.append('E-MIR: SymbolicContext::transfer_from returns None exactly when the BDD depends on an auxiliary variable (documented contract)')
